@@ -16,7 +16,7 @@ import weakref
 import logging
 import random
 import xmlrpc.client
-from typing import Dict, List, Optional
+from typing import Dict, List, Optional, Set
 
 from hsim.core.env import SimEnv
 from hsim.core.runner import RunResult
@@ -86,6 +86,10 @@ def gen_plan(rng: random.Random, tier: str) -> dict:
               "sub_session": pick(SUB_BEH), "sub_region": pick(SUB_BEH),
               "logger_raises": rng.random() < 0.3, "later": rng.choice([0.0, 0.003, 0.05]),
               "origin_delay": rng.choice([0.0, 0.0, 0.01, 0.05])}
+        if rng.random() < 0.05:
+            # an addon leaves something in the flow that pickles and crosses the queue but that mitmproxy refuses to
+            # merge on the other side (a wrongly typed field): the hand-back itself must still release the flow
+            st["unmergeable"] = rng.choice(["request", "response"])
         if "take_resume_preempt" in st["req_beh"] and rng.random() < 0.7:
             st["origin_delay"] = 0.05       # the origin is slow enough for the pre-empting answer to win the race
             st["later"] = rng.choice([0.0, 0.003])
@@ -130,6 +134,8 @@ def simplify_step(step):
     for key in ("sub_session", "sub_region"):
         if step[key] != "ignore":
             yield {**step, key: "ignore"}
+    if step.get("unmergeable"):
+        yield {k: v for k, v in step.items() if k != "unmergeable"}
     if step["logger_raises"]:
         yield {**step, "logger_raises": False}
     if step["status"] != 200:
@@ -266,6 +272,10 @@ def run_plan(plan: dict) -> RunResult:
                                             "from_browser": flow.from_browser, "can_stream": flow.can_stream}
                 if flow.taken or flow.resumed:
                     return None
+                if self.idx == 0 and st.get("unmergeable") == "request":
+                    flow.request.data.http_version = None
+                    unmergeable.add(tag)
+                    res.fault("unmergeable_state_handed_back")
                 if b == "meta":
                     flow.metadata[f"hsim_meta_{self.idx}"] = f"v{tag}"
                 elif b == "rewrite_url":
@@ -313,6 +323,10 @@ def run_plan(plan: dict) -> RunResult:
                     check_state_survived(flow, tag)
                 if flow.taken or flow.resumed:
                     return None
+                if self.idx == 0 and st.get("unmergeable") == "response" and flow.response is not None:
+                    flow.response.data.http_version = None
+                    unmergeable.add(tag)
+                    res.fault("unmergeable_state_handed_back")
                 if b == "meta":
                     flow.metadata[f"hsim_rmeta_{self.idx}"] = f"r{tag}"
                 elif b == "mutate_body":
@@ -330,6 +344,8 @@ def run_plan(plan: dict) -> RunResult:
         def check_state_survived(flow, tag):
             """Main side, response event: what we saw / wrote at request time must have survived two crossings."""
             st = beh[tag]
+            if tag in unmergeable:
+                return   # the request-time changes were refused by the other side as a whole: only the hand-back is judged
             before = seen_at_request[tag]
             now = snapshot_caps(flow)
             if st["kind"] in ("bridge", "bridge_bad", "login", "login_bad"):
@@ -354,6 +370,7 @@ def run_plan(plan: dict) -> RunResult:
             if any(b == "no_stream" for b in st["req_beh"]) and no_stream_applied.get(tag) and flow.can_stream:
                 return violate("C15/state/can-stream-lost", tag=tag)
 
+        unmergeable: Set[int] = set()
         wrote: Dict[tuple, bool] = {}
         no_stream_applied: Dict[int, bool] = {}
 
@@ -651,7 +668,7 @@ def run_plan(plan: dict) -> RunResult:
                     req_cb = next((c for c in cbs), None)
                     t_orig = next((e[1] for e in rec.events if e[0] == "origin"), None)
                     if (req_cb is not None and t_orig is not None and st["req_beh"].count("take_resume_preempt") == 1
-                            and pre[0]["t"] + cfg["queue_latency"] + 0.01 < t_orig):
+                            and pre[0]["t"] + cfg["queue_latency"] + 0.01 < t_orig and tag not in unmergeable):
                         res.probe("preempt_won_the_race")
                         if not any(e[0] == "preempted" for e in rec.events):
                             violate("C15/state/preempting-response-never-applied", tag=tag, preempt_queued=pre[0]["t"],
@@ -687,7 +704,7 @@ def run_plan(plan: dict) -> RunResult:
                     violate("C15/handoff/flow-never-completed", tag=tag, kind_=st["kind"], events=[e[0] for e in rec.events])
                     break
                 # state as it arrived back on the mitmproxy side
-                if rec.result is not None and rec.id not in preempts:
+                if rec.result is not None and rec.id not in preempts and tag not in unmergeable:
                     md = rec.result["metadata"]
                     inj_tag = md.get("hsim_injected")
                     # (requests to asset wrapper caps are redirected / re-pointed by the event manager itself
